@@ -63,18 +63,18 @@ fn construct(v: &Value) -> Option<Uri> {
     let ev = from_cps(&v["ev"]);
     let via: Vec<OwnedServerName> = v["via"].as_array().unwrap().iter().map(|s| OwnedServerName::try_from(from_cps(s)).unwrap()).collect();
     let action = v["action"].as_str().unwrap();
-    let evid = || OwnedEventId::from(<&EventId>::try_from(ev.as_str()).unwrap());
+    let evid: Option<OwnedEventId> = <&EventId>::try_from(ev.as_str()).ok().map(OwnedEventId::from);
     match (form, kind) {
         ("matrix_to", "user") if via.is_empty() => Some(Uri::To(<&UserId>::try_from(id.as_str()).ok()?.matrix_to_uri())),
         ("matrix_to", "room") => Some(Uri::To(<&RoomId>::try_from(id.as_str()).ok()?.matrix_to_uri_via(via))),
         ("matrix_to", "alias") if via.is_empty() => Some(Uri::To(<&RoomAliasId>::try_from(id.as_str()).ok()?.matrix_to_uri())),
-        ("matrix_to", "event_room") => Some(Uri::To(<&RoomId>::try_from(id.as_str()).ok()?.matrix_to_event_uri_via(evid(), via))),
-        ("matrix_to", "event_alias") if via.is_empty() => Some(Uri::To(<&RoomAliasId>::try_from(id.as_str()).ok()?.matrix_to_event_uri(evid()))),
+        ("matrix_to", "event_room") => Some(Uri::To(<&RoomId>::try_from(id.as_str()).ok()?.matrix_to_event_uri_via(evid.clone()?, via))),
+        ("matrix_to", "event_alias") if via.is_empty() => Some(Uri::To(<&RoomAliasId>::try_from(id.as_str()).ok()?.matrix_to_event_uri(evid.clone()?))),
         ("matrix", "user") if via.is_empty() && matches!(action, "none" | "chat") => Some(Uri::M(<&UserId>::try_from(id.as_str()).ok()?.matrix_uri(action == "chat"))),
         ("matrix", "room") if matches!(action, "none" | "join") => Some(Uri::M(<&RoomId>::try_from(id.as_str()).ok()?.matrix_uri_via(via, action == "join"))),
         ("matrix", "alias") if via.is_empty() && matches!(action, "none" | "join") => Some(Uri::M(<&RoomAliasId>::try_from(id.as_str()).ok()?.matrix_uri(action == "join"))),
-        ("matrix", "event_room") if action == "none" => Some(Uri::M(<&RoomId>::try_from(id.as_str()).ok()?.matrix_event_uri_via(evid(), via))),
-        ("matrix", "event_alias") if via.is_empty() && action == "none" => Some(Uri::M(<&RoomAliasId>::try_from(id.as_str()).ok()?.matrix_event_uri(evid()))),
+        ("matrix", "event_room") if action == "none" => Some(Uri::M(<&RoomId>::try_from(id.as_str()).ok()?.matrix_event_uri_via(evid.clone()?, via))),
+        ("matrix", "event_alias") if via.is_empty() && action == "none" => Some(Uri::M(<&RoomAliasId>::try_from(id.as_str()).ok()?.matrix_event_uri(evid.clone()?))),
         _ => None,
     }
 }
